@@ -20,6 +20,7 @@ type opIn struct {
 	Port     int    // requested port (reg), port concerned (squat, unsquat, probe)
 	Group    string
 	GroupKey string
+	Dup      string // undup: the contested proxy name
 }
 
 type opOut struct {
@@ -36,6 +37,7 @@ type pinfo struct {
 	Port  int
 	Group string
 	Bound bool // the listen that follows the acquisition has happened (see "bind")
+	Alias string // harness book-keeping only (name used in the reference allocator), not part of the state
 }
 
 type ginfo struct {
@@ -192,6 +194,16 @@ func (m *allocModel) step(s *mstate, in opIn, out opOut) (bool, *mstate) {
 		n := s.clone()
 		n.remove(in.Name)
 		return true, n
+	case "undup":
+		// second half of a registration that lost the race for its proxy name after acquiring and binding its port:
+		// the acquisition is undone (who holds the name is C12's subject)
+		p, ok := s.names[in.Name]
+		if !ok || p.Sess != in.Sess {
+			return false, s
+		}
+		n := s.clone()
+		n.remove(in.Name)
+		return true, n
 	case "reg", "acq":
 		// "reg": a registration as one step (refusals, proxies without port); "acq": first half of an acknowledged
 		// registration (everything but the listen), see "bind"
@@ -326,7 +338,13 @@ func (m *allocModel) step(s *mstate, in opIn, out opOut) (bool, *mstate) {
 			return s.squat[0][in.Port], s
 		default:
 			for _, nme := range ow {
-				if out.Owner == fmt.Sprintf("S%d|%s", s.names[nme].Sess, nme) {
+				if out.Owner == fmt.Sprintf("S%d|%s", s.names[nme].Sess, baseName(nme)) {
+					return true, s
+				}
+			}
+			// a registration that is about to lose the race for its name listens on its port for a moment
+			for nme, p := range s.names {
+				if strings.Contains(nme, "#") && !p.Bound && p.Proto == "tcp" && p.Port == in.Port && out.Owner == fmt.Sprintf("S%d|%s", p.Sess, baseName(nme)) {
 					return true, s
 				}
 			}
@@ -453,4 +471,12 @@ func mgrModel(allowed map[int]bool) porcupine.Model {
 			return fmt.Sprintf("%+v -> %+v", input, output)
 		},
 	}
+}
+
+// baseName strips the suffix the harness gives to the reference-allocator name of a raced registration.
+func baseName(n string) string {
+	if i := strings.Index(n, "#"); i > 0 {
+		return n[:i]
+	}
+	return n
 }
